@@ -38,8 +38,8 @@ func c17FaultScns() []c17FaultScn {
 		{"send-offline", 100, []string{"mint|0|16"}, "send|0|4|0", []string{"send|0|4|0", "send|0|8|0"}},
 		{"receive", 100, []string{"mint|1|16", "send|1|5|0"}, "recv|0|0|0", []string{"send|0|2|0", "send|0|1|0"}},
 		{"receive-own", 100, []string{"mint|0|16", "send|0|5|0"}, "recv|0|0|0", []string{"send|0|4|0", "send|0|8|0"}},
-		{"melt-succeeded", 100, []string{"mint|0|16"}, "melt|0|4|S", []string{"send|0|8|0", "send|0|2|0", "send|0|1|0"}},
-		{"melt-failed", 100, []string{"mint|0|16"}, "melt|0|4|F", []string{"send|0|8|0", "send|0|4|0"}},
+		{"melt-succeeded", 100, []string{"mint|0|16"}, "melt|0|4|S", []string{"checkmelt|0|0", "rmspent|0", "send|0|8|0", "send|0|2|0", "send|0|1|0"}},
+		{"melt-failed", 100, []string{"mint|0|16"}, "melt|0|4|F", []string{"checkmelt|0|0", "reclaim|0", "send|0|8|0", "send|0|4|0"}},
 		{"melt-pending-then-paid", 100, []string{"mint|0|16"}, "melt|0|4|P", []string{"lnfinal|0|0|S", "checkmelt|0|0", "send|0|8|0", "send|0|4|0"}},
 		{"checkmelt-succeeded", 100, []string{"mint|0|16", "melt|0|4|P", "lnfinal|0|0|S"}, "checkmelt|0|0", []string{"send|0|8|0", "send|0|4|0", "send|0|2|0"}},
 		{"checkmelt-failed", 100, []string{"mint|0|16", "melt|0|4|P", "lnfinal|0|0|F"}, "checkmelt|0|0", []string{"send|0|8|0", "send|0|4|0"}},
